@@ -4,7 +4,7 @@
 From Coq Require Import List NArith ZArith Bool.
 Import ListNotations.
 From NV Require Import Codec.Escape Codec.EscapeProofs Codec.Ident Codec.IdentProofs Codec.Num
-  Codec.NumProofs Codec.YamlScalar Codec.YamlScalarProofs Codec.SourcePins Codec.Loaders Codec.LoadersProofs Codec.SciGrammar.
+  Codec.NumProofs Codec.YamlScalar Codec.YamlScalarProofs Codec.SourcePins Codec.Loaders Codec.LoadersProofs Codec.SciGrammar Codec.Overflow.
 From NV Require Import Gen.Keywords.
 
 (* --- strings: printer escaping vs. lexer, for every string *)
@@ -55,7 +55,7 @@ Qed.
 (* --- integers *)
 Theorem C13_int_roundtrip : forall n : Z, (i64_min <= n <= u64_max)%Z ->
   int_token n = Some (dec_of_Z n)
-  /\ (forall f, resolve f Plain None (dec_of_Z n) = RNum n 0)
+  /\ resolve Plain None (dec_of_Z n) = RNum n 0
   /\ json_serde_int (dec_of_Z n) = SInt n
   /\ ((n <= i64_max)%Z -> toml_int (dec_of_Z n) = TInt n).
 Proof. exact int_roundtrip. Qed.
@@ -65,22 +65,22 @@ Theorem C13_int_outside_range_goes_through_f64 : forall n : Z,
 Proof. exact int_outside_range_goes_through_f64. Qed.
 
 (* --- YAML scalar resolution *)
-Theorem C13_yaml_quoted_is_string : forall f st tg v, st <> Plain -> resolve f st tg v = RStr v.
+Theorem C13_yaml_quoted_is_string : forall st tg v, st <> Plain -> resolve st tg v = RStr v.
 Proof. exact yaml_quoted_is_string. Qed.
 
-Theorem C13_yaml_plain_resolution : forall (f : fmt) (v : str),
-  (resolve f Plain None v = RStr v <-> nonstring_spelling f v = false)
-  /\ (resolve f Plain None v = RErr <-> infnan_spelling v = true).
+Theorem C13_yaml_plain_resolution : forall v : str,
+  (resolve Plain None v = RStr v <-> nonstring_spelling v = false)
+  /\ (resolve Plain None v = RErr <-> infnan_spelling v = true).
 Proof. exact yaml_plain_resolution. Qed.
 
 Theorem C13_yaml_string_survives_under_contract :
   forall (writes_plain : str -> bool) (quoted : style),
     quoted <> Plain -> emitter_meets_contract writes_plain ->
-    forall s, resolve FYaml (if writes_plain s then Plain else quoted) None s = RStr s.
+    forall s, resolve (if writes_plain s then Plain else quoted) None s = RStr s.
 Proof. exact yaml_string_survives_under_contract. Qed.
 
 Theorem C13_yaml_contract_necessary :
-  forall f s, nonstring_spelling f s = true -> resolve f Plain None s <> RStr s.
+  forall s, nonstring_spelling s = true -> resolve Plain None s <> RStr s.
 Proof. exact yaml_contract_necessary. Qed.
 
 (* --- T1: the JSON event loader (yaml.rs) and the serde path agree on every in-scope document *)
@@ -92,3 +92,19 @@ Proof. exact loaders_agree. Qed.
        [+-]? ( D+ | D+ . D* | D* . D+ ) ( [eE] [+-]? D+ )?   (exponent in the i64 range) *)
 Theorem C13_from_sci_grammar : forall v : str, is_some (from_sci v) = sci_grammar v.
 Proof. exact from_sci_grammar. Qed.
+
+(* --- the known class (known_findings.txt: yaml-float-overflow-string), made explicit and shown
+       non-empty: a plain scalar spelled as a number at or beyond the f64 rounding threshold is that
+       number for the loader, so a string spelled like that, which the YAML emitter writes plain,
+       does not survive *)
+Theorem C13_yaml_overflow_spelling_is_number : forall v : str,
+  float_overflow_spelling v = true ->
+  exists m e, from_sci v = Some (m, e) /\ overflows_f64 m e = true /\ resolve Plain None v = RNum m e.
+Proof. exact yaml_overflow_spelling_is_number. Qed.
+
+Theorem C13_yaml_overflow_class_refuted :
+  exists v : str, float_overflow_spelling v = true /\ resolve Plain None v <> RStr v.
+Proof.
+  exists s_1e400. split; [exact (proj1 overflow_class_nonempty)|].
+  exact (proj2 (yaml_overflow_class_breaks_contract s_1e400 (proj1 overflow_class_nonempty))).
+Qed.
